@@ -75,12 +75,31 @@ class Check:
         rc, out = sh(["go", "build", "-o", f"{WORK}/bin/extract", "./cmd/extract"], cwd=f"{VERIF}/go", env=GOENV)
         if rc != 0:
             raise SystemExit(f"internal error: cannot build the extractor:\n{out}")
-        for f in os.listdir(GEN) if os.path.isdir(GEN) else []:
-            if f.endswith(".lean"):
-                os.remove(os.path.join(GEN, f))
-        rc, out = sh([f"{WORK}/bin/extract", "-repo", REPO, "-out", GEN, "-facts", f"{WORK}/facts.json"], env=GOENV)
+        # regenerate into a scratch directory, then make Gen/ identical to it (files that are no
+        # longer produced are deleted, changed ones replaced): same result as delete-and-rewrite,
+        # without a window in which a concurrent build sees no Gen/ at all
+        tmp = f"{WORK}/gen_tmp_{os.getpid()}"
+        import shutil
+        shutil.rmtree(tmp, ignore_errors=True)
+        os.makedirs(tmp)
+        os.makedirs(GEN, exist_ok=True)
+        rc, out = sh([f"{WORK}/bin/extract", "-repo", REPO, "-out", tmp, "-facts", f"{WORK}/facts.json"], env=GOENV)
         if rc != 0:
+            shutil.rmtree(tmp, ignore_errors=True)
+            for f in os.listdir(GEN):
+                if f.endswith(".lean"):
+                    os.remove(os.path.join(GEN, f))   # no stale model may survive a broken tie
             return out.strip()
+        fresh = set(os.listdir(tmp))
+        for f in os.listdir(GEN):
+            if f.endswith(".lean") and f not in fresh:
+                os.remove(os.path.join(GEN, f))
+        for f in fresh:
+            new = open(os.path.join(tmp, f)).read()
+            dst = os.path.join(GEN, f)
+            if not os.path.exists(dst) or open(dst).read() != new:
+                os.replace(os.path.join(tmp, f), dst)
+        shutil.rmtree(tmp, ignore_errors=True)
         return None
 
     # ------------------------------------------------------------ Lean build
@@ -166,7 +185,7 @@ class Check:
                      cwd=f"{VERIF}/go", env=GOENV, timeout=900)
         return rc == 0, out
 
-    def run_stream(self, stream, extra_args=None, timeout=3000, driver=True):
+    def run_stream(self, stream, extra_args=None, timeout=3000, driver=True, exe="driver"):
         """Runs the Go harness stream, then (driver=True) the Lean driver on its .in file.
         Returns (in_lines, go_lines, lean_lines)."""
         d = f"{WORK}/streams/{self.pid}"
@@ -183,7 +202,7 @@ class Check:
         if not driver:
             return (open(f"{d}/{stream}.in").read().splitlines(), open(f"{d}/{stream}.go").read().splitlines(), [])
         with open(f"{d}/{stream}.in") as fin, open(f"{d}/{stream}.lean", "w") as fout:
-            p = subprocess.run([f"{LEAN}/.lake/build/bin/driver"], stdin=fin, stdout=fout, stderr=subprocess.PIPE, text=True, timeout=timeout)
+            p = subprocess.run([f"{LEAN}/.lake/build/bin/{exe}"], stdin=fin, stdout=fout, stderr=subprocess.PIPE, text=True, timeout=timeout)
         if p.returncode != 0:
             raise RuntimeError(f"Lean driver failed on stream {stream}: {p.stderr[-2000:]}")
         return (open(f"{d}/{stream}.in").read().splitlines(),
